@@ -68,7 +68,8 @@ func (f *Faults) hit(name string) error {
 // faultRef fails the k-th mutating call of a ref.Store; reads pass through.
 type faultRef struct {
 	ref.Store
-	f *Faults
+	f  *Faults
+	db *sql.DB // when set, an injected failure of a logged set happens INSIDE the store operation
 }
 
 func (s *faultRef) Set(key string, val []byte) error {
@@ -79,6 +80,17 @@ func (s *faultRef) Set(key string, val []byte) error {
 }
 func (s *faultRef) SetWithLog(key string, val []byte, rl *ref.Reflog) error {
 	if err := s.f.hit("ref.setlog"); err != nil {
+		if s.db != nil {
+			// "the operation is not performed and returns an error" is not taken on trust: the store's own write
+			// of the log record is made to fail (an SQL trigger aborts the insert) and the real operation runs;
+			// whatever it leaves behind is what the scenario observes
+			if _, terr := s.db.Exec(`CREATE TRIGGER verif_fail BEFORE INSERT ON reflogs BEGIN SELECT RAISE(ABORT, 'verif-injected-failure'); END`); terr != nil {
+				return err
+			}
+			rerr := s.Store.SetWithLog(key, val, rl)
+			s.db.Exec(`DROP TRIGGER verif_fail`)
+			return rerr
+		}
 		return err
 	}
 	return s.Store.SetWithLog(key, val, rl)
@@ -175,7 +187,7 @@ func NewLibWorld() (*World, error) {
 	f := &Faults{}
 	db := tbl.NewSafeStore()
 	db.Fail = func(key []byte) error { return f.hit("obj.set") }
-	return &World{DB: db, RS: rs, F: f, fdb: db, frs: &faultRef{Store: rs, f: f},
+	return &World{DB: db, RS: rs, F: f, fdb: db, frs: &faultRef{Store: rs, f: f, db: sqldb},
 		closeFn: func() { sqldb.Close() }}, nil
 }
 
